@@ -522,7 +522,23 @@ func c18R1R2(c *Ctx) {
 		}
 	}
 	// single-net Contains tests on package-level nets
-	for _, gname := range []string{"nat64Net", "v4TranslatedNet"} {
+	required := map[string]bool{"nat64Net": true, "v4TranslatedNet": true}
+	var gnames []string
+	for name, m := range refuse.Pkg.Members {
+		if g, ok := m.(*ssa.Global); ok && strings.HasSuffix(g.Type().String(), "net.IPNet") {
+			used := false
+			for _, call := range kit.CallsTo(refuse, Set(contains)) {
+				if u, isU := call.Common().Args[0].(*ssa.UnOp); isU && u.X == ssa.Value(g) {
+					used = true
+				}
+			}
+			if used || required[name] {
+				gnames = append(gnames, name)
+			}
+		}
+	}
+	sort.Strings(gnames)
+	for _, gname := range gnames {
 		pf, ok := globalCIDR(c, r1, gname)
 		g, isG := refuse.Pkg.Members[gname].(*ssa.Global)
 		if !ok || !isG {
@@ -550,7 +566,7 @@ func c18R1R2(c *Ctx) {
 				desc6 = append(desc6, gname+"="+pf.String())
 			}
 		}
-		if n == 0 {
+		if n == 0 && required[gname] {
 			c.R.Fail(r2, "Refuse: "+gname+" test", c.Pos(refuse.Pos()), "no "+gname+".Contains test found in Refuse")
 		}
 	}
@@ -612,7 +628,7 @@ func c18R1R2(c *Ctx) {
 			c.R.Fail(r2, "Refuse: v4-compatible test", c.Pos(refuse.Pos()), "Refuse no longer calls isV4Compatible")
 		}
 	}
-	floor6 := []string{"::1/128", "::/128", "fe80::/10", "fec0::/10", "fc00::/7", "ff00::/8", "64:ff9b::/96", "::ffff:0:0:0/96", "2002::/16", "2001::/32"}
+	floor6 := []string{"::1/128", "::/128", "fe80::/10", "fec0::/10", "fc00::/7", "ff00::/8", "64:ff9b::/96", "64:ff9b:1::/48" /* RFC 8215 local-use NAT64: embeds any IPv4 like the well-known prefix (F45) */, "::ffff:0:0:0/96", "2002::/16", "2001::/32"}
 	for _, f := range floor6 {
 		want := prefixRange(netip.MustParsePrefix(f))
 		ok, at := covered(want, have6)
